@@ -18,17 +18,42 @@ type comparison =
 | Lt
 | Gt
 
+val compOpp : comparison -> comparison
+
 val add : nat -> nat -> nat
+
+module Nat :
+ sig
+  val eqb : nat -> nat -> bool
+ end
+
+val nth : nat -> 'a1 list -> 'a1 -> 'a1
+
+val rev : 'a1 list -> 'a1 list
 
 val concat : 'a1 list list -> 'a1 list
 
 val map : ('a1 -> 'a2) -> 'a1 list -> 'a2 list
 
+val flat_map : ('a1 -> 'a2 list) -> 'a1 list -> 'a2 list
+
+val fold_left : ('a1 -> 'a2 -> 'a1) -> 'a2 list -> 'a1 -> 'a1
+
+val existsb : ('a1 -> bool) -> 'a1 list -> bool
+
+val forallb : ('a1 -> bool) -> 'a1 list -> bool
+
+val filter : ('a1 -> bool) -> 'a1 list -> 'a1 list
+
 val find : ('a1 -> bool) -> 'a1 list -> 'a1 option
+
+val split : ('a1 * 'a2) list -> 'a1 list * 'a2 list
 
 val firstn : nat -> 'a1 list -> 'a1 list
 
 val skipn : nat -> 'a1 list -> 'a1 list
+
+val repeat : 'a1 -> nat -> 'a1 list
 
 type positive =
 | XI of positive
@@ -79,6 +104,8 @@ module Coq_Pos :
 
   val mul : positive -> positive -> positive
 
+  val size_nat : positive -> nat
+
   val compare_cont : comparison -> positive -> positive -> comparison
 
   val compare : positive -> positive -> comparison
@@ -98,6 +125,8 @@ module N :
 
   val double : n -> n
 
+  val succ : n -> n
+
   val add : n -> n -> n
 
   val sub : n -> n -> n
@@ -110,7 +139,11 @@ module N :
 
   val leb : n -> n -> bool
 
+  val ltb : n -> n -> bool
+
   val min : n -> n -> n
+
+  val size_nat : n -> nat
 
   val pos_div_eucl : positive -> n -> n * n
 
@@ -137,9 +170,33 @@ module Z :
 
   val add : z -> z -> z
 
+  val opp : z -> z
+
+  val sub : z -> z -> z
+
+  val mul : z -> z -> z
+
+  val compare : z -> z -> comparison
+
+  val leb : z -> z -> bool
+
+  val ltb : z -> z -> bool
+
+  val eqb : z -> z -> bool
+
+  val max : z -> z -> z
+
+  val min : z -> z -> z
+
   val to_N : z -> n
 
   val of_N : n -> z
+
+  val pos_div_eucl : positive -> z -> z * z
+
+  val div_eucl : z -> z -> z * z
+
+  val modulo : z -> z -> z
  end
 
 type bytes = n list
@@ -158,6 +215,14 @@ val de16 : n -> n -> n
 
 val de32 : n -> n -> n -> n -> n
 
+val zeros : n -> bytes
+
+val bytes_eqb : bytes -> bytes -> bool
+
+val u16_of : n -> n
+
+val u32_of : n -> n
+
 type cmd =
 | Waste
 | Syn
@@ -173,6 +238,8 @@ type cmd =
 
 val cmd_eqb : cmd -> cmd -> bool
 
+val header_size : n
+
 val cmd_disc : (n * cmd) list
 
 val cmd_table : (n * cmd) list
@@ -180,6 +247,36 @@ val cmd_table : (n * cmd) list
 val cmd_default : cmd
 
 val encode_max_payload : n
+
+val check_mark : z
+
+val default_scheme : n list
+
+val http_max_header : n
+
+val http_terminator : n list
+
+val http_read_chunk : n
+
+val client_first_stream_id : n
+
+val client_pkt_start : n
+
+val client_send_padding : bool
+
+val server_pkt_start : n
+
+val server_send_padding : bool
+
+val padding_size_bound : z option
+
+val pkt_index_offset : n
+
+val client_settings_fixed : (n list * n list) list
+
+val client_settings_md5_key : n list
+
+val server_settings_md5_key : n list
 
 val assoc_N : n -> (n * 'a1) list -> 'a1 option
 
@@ -242,3 +339,543 @@ val rd_read_exact : rd -> n -> rd * xres
 val rd_pending_bytes : rd -> bytes
 
 val rd_read_script : rd -> n list -> (rd * bytes) * bool
+
+val is_ws : n -> bool
+
+val trim_start : bytes -> bytes
+
+val trim_end : bytes -> bytes
+
+val trim : bytes -> bytes
+
+val split_once : n -> bytes -> (bytes * bytes) option
+
+val split0 : n -> bytes -> bytes list
+
+val strip_cr : bytes -> bytes
+
+val lines_aux : bytes -> bytes -> bytes list
+
+val lines : bytes -> bytes list
+
+val digit_val : n -> z option
+
+val parse_digits : z -> bytes -> z option
+
+val parse_nat_digits : bytes -> z option
+
+val i64_min : z
+
+val i64_max : z
+
+val u32_max : z
+
+val parse_i64 : bytes -> z option
+
+val parse_u32 : bytes -> n option
+
+val to_dec_fuel : nat -> n -> bytes -> bytes
+
+val u32_to_string : n -> bytes
+
+val filter_map : ('a1 -> 'a2 option) -> 'a1 list -> 'a2 list
+
+type smap = (bytes * bytes) list
+
+val map_get : bytes -> smap -> bytes option
+
+val parse_kv : bytes -> (bytes * bytes) option
+
+val parse_map : bytes -> smap
+
+val key_stop : bytes
+
+val lit_c : bytes
+
+type scheme = { sc_map : smap; sc_raw : bytes; sc_stop : n }
+
+val factory_new : bytes -> scheme option
+
+type entry =
+| ECheck
+| ERange of z * z
+
+val or0 : z option -> z
+
+val parse_entry : z option -> bytes -> entry option
+
+val spec_entries : z option -> bytes -> entry list
+
+val line_entries_gen : z option -> scheme -> n -> entry list
+
+val line_entries : scheme -> n -> entry list
+
+val i32_of : z -> z
+
+val usize_of_i32 : z -> n
+
+val isize_max : n
+
+val sizes : entry list -> z list -> z list
+
+val wr : bytes -> bytes list
+
+val is_nil0 : 'a1 list -> bool
+
+val waste_bytes : n -> n -> bytes
+
+type shaped =
+| Crash
+| Writes of bytes list
+
+val and_then : bytes list -> shaped -> shaped
+
+val shape_loop : z list -> bytes -> shaped
+
+val pkt_index : n -> n
+
+val write_packet_gen :
+  (n -> n) -> (scheme -> n -> entry list) -> bool -> scheme -> n -> z list ->
+  bytes -> shaped * n
+
+val write_packet : bool -> scheme -> n -> z list -> bytes -> shaped * n
+
+type csess = { cs_client : bool; cs_scheme : scheme; cs_counter : n;
+               cs_buffering : bool; cs_buffer : bytes }
+
+val sess_new : bool -> scheme -> csess
+
+val sess_pads : csess -> bool
+
+val sess_write : csess -> z list -> bytes -> csess * shaped option
+
+val sess_set_buffering : csess -> bool -> csess
+
+val sess_set_scheme : csess -> scheme -> csess
+
+val run_packets : bool -> scheme -> n -> (z list * bytes) list -> shaped list
+
+val auth_writes : bytes -> z list -> bytes list
+
+val waste : n -> bytes
+
+val in_range : z -> z -> z -> bool
+
+val accepts : entry list -> bytes -> bytes list -> bool
+
+val builtin_scheme : scheme
+
+type proc = { p_builtin_made : bool; p_updated : scheme option }
+
+val proc_init : proc
+
+val proc_default : proc -> scheme * proc
+
+val proc_update : proc -> bytes -> proc option
+
+val session_padding : proc -> scheme -> scheme
+
+val on_update : proc -> csess -> bytes -> proc * csess
+
+val scheme_md5 : (bytes -> bytes) -> scheme -> bytes
+
+val client_settings : (bytes -> bytes) -> scheme -> smap
+
+val server_on_announce :
+  (bytes -> bytes) -> scheme -> bytes option -> bytes option
+
+val server_on_settings : (bytes -> bytes) -> scheme -> smap -> bytes option
+
+type world = { w_proc : proc; w_client : scheme; w_sessions : csess list;
+               w_out : (nat * shaped) list }
+
+val world_init : proc -> scheme -> world
+
+val h_nil : 'a1 list -> bool
+
+val h_is_ws : n -> bool
+
+val h_starts_with : bytes -> bytes -> bool
+
+val h_strip_prefix : bytes -> bytes -> bytes option
+
+val h_find : bytes -> bytes -> n option
+
+val h_find_if : (n -> bool) -> bytes -> n option
+
+val h_rfind_byte : n -> bytes -> n option
+
+val h_contains_byte : n -> bytes -> bool
+
+val h_split_crlf : bytes -> bytes list
+
+val h_ws_aux : bytes -> bytes * bytes list
+
+val h_split_whitespace : bytes -> bytes list
+
+val h_trim_start_by : (n -> bool) -> bytes -> bytes
+
+val h_trim_end_by : (n -> bool) -> bytes -> bytes
+
+val h_trim_by : (n -> bool) -> bytes -> bytes
+
+val h_trim : bytes -> bytes
+
+val h_trim_matches : n -> bytes -> bytes
+
+val h_lower : n -> n
+
+val h_to_lower : bytes -> bytes
+
+val h_eq_ignore_case : bytes -> bytes -> bool
+
+val h_digit : n -> n option
+
+val h_parse_digits : n -> n -> bytes -> n option
+
+val h_parse_uint : n -> bytes -> n option
+
+val h_parse_u16 : bytes -> n option
+
+val h_dec_fuel : nat -> n -> bytes -> bytes
+
+val h_dec : n -> bytes
+
+type 'a hres =
+| HOk of 'a
+| HErr
+
+val k_crlf : bytes
+
+val k_connect : bytes
+
+val k_host_colon : bytes
+
+val k_http : bytes
+
+val k_https : bytes
+
+val k_scheme_sep : bytes
+
+val k_http11 : bytes
+
+val k_host_sp : bytes
+
+val c_colon : n
+
+val c_slash : n
+
+val c_qmark : n
+
+val c_star : n
+
+val c_lbr : n
+
+val c_rbr : n
+
+val c_sp : n
+
+val find_header_end : bytes -> n option
+
+type hrh =
+| RhOk of bytes * bytes * bytes list
+| RhTooLarge
+| RhClosed
+| RhPending of bytes
+
+val read_header : bytes -> bytes list -> bool -> hrh
+
+val rechunk_fuel : nat -> n -> bytes -> bytes list
+
+val rechunk : n -> bytes -> bytes list
+
+val tcp_reads : bytes list -> bytes list
+
+val clean_host : bytes -> bytes
+
+val split_host_port : bytes -> n -> bytes * n
+
+val is_host_line : bytes -> bool
+
+val find_host_header : bytes list -> bytes option
+
+val is_authority_end : n -> bool
+
+val determine_target :
+  bytes -> bytes -> bytes list -> (((bytes * n) * bytes) * bool) hres
+
+type hparsed = { hp_method : bytes; hp_version : bytes; hp_host : bytes;
+                 hp_port : n; hp_path : bytes; hp_connect : bool;
+                 hp_headers : bytes list; hp_body : bytes }
+
+val parse_http_request : bytes -> bytes -> hparsed hres
+
+val host_header_value : bytes -> n -> bytes
+
+val host_line_out : bytes -> n -> bytes
+
+val rewrite_line : bytes -> bytes -> bytes
+
+val build_forward_request : hparsed -> bytes
+
+type hev =
+| EvOpen of bytes * n
+| EvReply of n
+| EvSend of bytes
+
+val fwd_loop : bytes list -> hev list
+
+val opt_send : bytes -> hev list
+
+val handle : bytes list -> bool -> bool -> hev list
+
+val sent_bytes : hev list -> bytes
+
+type hostname =
+| HName of bytes
+| HV6 of bytes
+
+type authority = { au_host : hostname; au_port : n list option }
+
+type rtarget =
+| TAuthority of authority
+| TAbsolute of bool * bytes * authority * bytes
+| TOrigin of bytes
+
+type host_hdr = { hh_name : bytes; hh_pre : bytes; hh_auth : authority;
+                  hh_post : bytes }
+
+type hreq = { r_method : bytes; r_target : rtarget; r_version : bytes;
+              r_before : bytes list; r_host : host_hdr option;
+              r_after : bytes list; r_body : bytes }
+
+val digits_text : n list -> bytes
+
+val digits_value : n list -> n
+
+val render_host : hostname -> bytes
+
+val render_auth : authority -> bytes
+
+val render_target : rtarget -> bytes
+
+val render_host_line : host_hdr -> bytes
+
+val header_lines : hreq -> bytes list
+
+val render_lines : bytes list -> bytes
+
+val render_head : hreq -> bytes
+
+val render : hreq -> bytes
+
+val host_text : hostname -> bytes
+
+val auth_port : authority -> n -> n
+
+val auth_target : authority -> n -> bytes * n
+
+val is_connect_req : hreq -> bool
+
+val spec_target : hreq -> (bytes * n) option
+
+val spec_path : hreq -> bytes
+
+val norm_host_hdr : hostname -> n -> host_hdr
+
+val target_authority : hreq -> (authority * n) option
+
+val origin_form : hreq -> hreq
+
+val tokenb : bytes -> bool
+
+val host_charb : n -> bool
+
+val v6_charb : n -> bool
+
+val wf_hostb : hostname -> bool
+
+val wf_digitsb : n list -> bool
+
+val wf_authb : authority -> bool
+
+val owsb : bytes -> bool
+
+val wf_host_hdrb : host_hdr -> bool
+
+val plain_lineb : bytes -> bool
+
+val wf_pqb : bytes -> bool
+
+val wf_schemeb : bool -> bytes -> bool
+
+val wf_targetb : hreq -> bool
+
+val wf_req : hreq -> bool
+
+val forward_of : hreq -> (((bytes * n) * bool) * bytes) hres
+
+val split_host_port_cur : bytes -> n -> bytes * n
+
+val find_host_header_cur : bytes list -> bytes option
+
+val determine_target_cur :
+  bytes -> bytes -> bytes list -> (((bytes * n) * bytes) * bool) hres
+
+val parse_http_request_cur : bytes -> bytes -> hparsed hres
+
+val host_line_out_cur : bytes -> n -> bytes
+
+val build_forward_request_cur : hparsed -> bytes
+
+val read_header_cur : bytes -> bytes list -> bool -> hrh
+
+val handle_cur : bytes list -> bool -> bool -> hev list
+
+type tid = nat
+
+type witem = tid * frame
+
+type res =
+| ResOk
+| ResClosed
+| ResIo
+| ResErrOpen
+| ResTimeout
+| ResData
+| ResEof
+| ResNoStream
+
+type inev =
+| InSynAck of tid * bool
+| InPush of tid
+| InFin of tid
+| InAlert
+| InEof
+| InErr
+
+type call =
+| CWrite of frame
+| CData of bytes
+| COpen
+| CAwait
+| CTimeout
+| CRead
+| CClose
+| CDisableBuf
+| CEnableBuf
+| CFail
+| CFeed of inev
+
+type after =
+| AfterClose
+| AfterIoErr
+| AfterRecv
+
+type wk =
+| WkPlain
+| WkOpen
+
+type pc =
+| PIdle
+| PW0 of wk * frame
+| PW1 of wk * frame
+| PW2 of wk * frame
+| PW2wait of wk * frame
+| PW3 of wk * frame
+| PW4 of wk * witem list
+| PE0 of after * wk
+| PC1 of after * wk
+| PC2 of after * wk
+| PC2wait of after * wk
+| PO1 of n
+
+type task = { t_prog : call list; t_pc : pc; t_res : res list;
+              t_sid : n option; t_verdict : res option; t_rq : nat;
+              t_rclosed : bool }
+
+type state = { buffering : bool; pending : witem list; wr0 : tid option;
+               waiters : tid list; pkt : n; wire : (n * witem list) list;
+               closed : bool; shut : bool; failing : bool; next_sid : 
+               n; table : (n * tid) list; ralive : bool;
+               tasks : (tid -> task); lin : witem list }
+
+val rtid : tid
+
+val idle_task : call list -> task
+
+val upd : (tid -> task) -> tid -> task -> tid -> task
+
+val set_tasks : state -> (tid -> task) -> state
+
+val set_task : state -> tid -> task -> state
+
+val with_pc : task -> pc -> task
+
+val with_res : task -> res -> task
+
+val with_prog : task -> call list -> task
+
+val with_sid : task -> n -> task
+
+val with_verdict : task -> res option -> task
+
+val with_rq : task -> nat -> bool -> task
+
+val set_pc : state -> tid -> pc -> state
+
+val finish : state -> tid -> res -> state
+
+val set_flags : state -> bool -> bool -> bool -> bool -> bool -> state
+
+val set_buffering : state -> bool -> state
+
+val set_closed : state -> state
+
+val set_shut : state -> state
+
+val set_failing : state -> state
+
+val set_rdead : state -> state
+
+val set_queue : state -> witem list -> witem list -> state
+
+val set_lock : state -> tid option -> tid list -> state
+
+val set_wire : state -> n -> (n * witem list) list -> state
+
+val set_table : state -> n -> (n * tid) list -> state
+
+val finish_close : state -> tid -> after -> state
+
+val release_ws : tid list -> state -> state
+
+val release : state -> state
+
+val enter_close : state -> tid -> after -> wk -> state
+
+val drain : (n * tid) list -> (tid -> task) -> tid -> task
+
+val lookup_owner : (n * tid) list -> tid -> n option
+
+val remove_owner : (n * tid) list -> tid -> (n * tid) list
+
+val pc_is_idle : pc -> bool
+
+val feed_ev : state -> inev -> state
+
+val syn_frame : n -> frame
+
+val psh_frame : n -> bytes -> frame
+
+val start_call : state -> tid -> call -> call list -> state option
+
+val step : state -> tid -> state option
+
+val step_or_skip : state -> tid -> state
+
+val run : state -> tid list -> state
+
+val init : call list list -> bool -> witem list -> state
+
+val flat_wire : state -> witem list
